@@ -75,6 +75,21 @@ def _check(job):
         rep["observed"] = text
         for msg in msgs[:3]:
             divs.append(("table:%s" % kind, "%s: %s" % (" ".join(argv[2:]), msg), rep))
+    # -x threshold with the other one-sided bin types
+    for bt, tab in (obj.get("thr") or {}).items():
+        argv = list(paths) + ["-m", obj["metric"], "-x", "threshold", "-type", "csv", "-r", ",".join(str(t) for t in obj["thresholds"]), "-b", bt]
+        if climp:
+            argv += ["-c" if obj["climType"] == "subtract" else "-C", climp]
+        rep = {"kind": "table", "argv": argv, "files": [open(p).read() for p in paths], "expected": tab, "type": "csv", "axis": "threshold"}
+        status, text = run_verif(argv)
+        n += 1
+        if status != "ok":
+            divs.append((status.split(" ")[0] if status.startswith("exception") else "table:" + status, "%s -> %s" % (" ".join(argv[2:]), status), rep))
+            continue
+        header, rows = table.parse(text, "csv")
+        rep["observed"] = text
+        for msg in table.compare(tab, [os.path.basename(p) for p in paths], header, rows, 6, "threshold")[:3]:
+            divs.append(("table:csv", "%s: %s" % (" ".join(argv[2:]), msg), rep))
     for mt in obj.get("multi", []):
         argv = list(paths) + ["-m", obj["metric"], "-x", obj["axis"], "-type", "csv", "-r", ",".join(str(t) for t in mt["r"]), "-b", mt["bt"]]
         if climp:
